@@ -57,7 +57,9 @@ var trustedOrder = []string{"unset", "empty", "10.0.0.1", "10.0.0.0/8", "fd00::/
 
 // 10.0.0.17 / 10.0.0.100: addresses whose text begins with the text of a listed address
 var peers = []string{"10.0.0.1:4711", "10.9.9.9:4711", "10.0.0.17:4711", "10.0.0.100:4711", "192.168.1.1:4711", "[fd00::1]:4711", "[::1]:4711", "[fe80::1%eth0]:4711", "@",
-	"[2001:db8:1::10]:4711", "[2001:db8:2::1]:4711", "[2001:db8:1::11]:4711"}
+	"[2001:db8:1::10]:4711", "[2001:db8:2::1]:4711", "[2001:db8:1::11]:4711",
+	// IPv6 peers whose last four bytes are those of the listed 10.0.0.1: other addresses
+	"[2001:db8::a00:1]:4711", "[fd00::a00:1]:4711"}
 
 var fwdHeaders = []struct{ name, value, alt string }{
 	{"Forwarded", "for=9.9.9.9;proto=https;host=evil.example", "for=9.9.9.8"},
